@@ -91,6 +91,15 @@ claim('C11',
       'driver run on a given text under ASan, not generated from verifier traces.',
       'DESIGN.md 4 C11')
 
+claim('C05',
+      'Message clause only: function and loop contracts on the real internal::WriteMessage with fputc/fwrite bound to a ghost '
+      'model of the output. For every NUL-terminated message of any length: reads stay inside it, the bytes written are the '
+      'message bytes in order plus one inserted space per empty line, no empty line (the format\'s terminator) is written '
+      'before the whole message has been written, and the output ends with the terminator line followed only by newlines.',
+      'Trusted: CBMC, extractor, the ghost output model (fputc/fwrite always succeed). Not decided: number round trip, counts '
+      'line, vectors and suffix sections of the writer (fmt / C++ templates); the reader side of those is C14.',
+      'DESIGN.md 4 C05')
+
 for pid, reason in [
     ('C01', 'relational whole-pipeline equivalence across ~12k lines of CRTP templates; no function boundary carries it and the code is outside the mechanically extractable C subset (DESIGN.md 5)'),
     ('C09', 'whole-process behaviour (exit status, files, exception propagation through try/catch) - not expressible as function contracts here (DESIGN.md 5)'),
